@@ -45,6 +45,10 @@ func (p *packageParse) clear() {
 // parse 返回一个或者多个完成的包
 func (p *packageParse) parse(data []byte) ([]*Message, error) {
 	unpackMsgs, err := p.unpack(data)
+	if len(p.timeoutRecord) > 0 {
+		// 超过60秒还没收齐的先丢弃 迟到的分包不能再把它补齐后交付
+		p.deleteTimeoutPackage()
+	}
 	msgs := make([]*Message, 0, len(unpackMsgs))
 	for _, msg := range unpackMsgs {
 		msgs = append(msgs, msg)
